@@ -16,7 +16,8 @@ RULE = ('random addresses (7 modes, asymmetric combinations incl. inconsistent o
         'address emits for physical addressing, accepts exactly the physically addressed frames that layer accepts (id with every single '
         'bit flipped, other id type, first byte variations), every other option is preserved by bind(), inexpressible asymmetric '
         'addresses -> ValueError with nothing bound, set_* after bind / send,recv before bind or after close -> RuntimeError. The call '
-        'results and setsockopt/bind arguments are compared with the extracted Coq wrapper model.')
+        'results and setsockopt/bind arguments are compared with the extracted Coq wrapper model.'
+        ' Addresses also carry legal parameters their mode does not use (address_extension in Normal modes, ...): they must not reach the kernel.')
 ASSUME = ['identifiers within their documented ranges (11 / 29 bits); the Linux kernel is represented by Spec/Kernel.v']
 
 
@@ -27,8 +28,8 @@ def kq(m, line):
 
 def run_case(part, m, rng, campaign):
     asym = rng.random() < 0.35
-    a = rand_address(rng)
-    inst = {'txa': a, 'rxa': mirror(rand_address(rng)) if asym else None}
+    a = with_stray(rng, rand_address(rng))
+    inst = {'txa': a, 'rxa': with_stray(rng, mirror(rand_address(rng))) if asym else None}
     try:
         addr = make_layer_address(inst)
     except ValueError:
